@@ -48,7 +48,9 @@ func CanonicalJSON(src io.Reader) ([]byte, error) {
 func handleNextToken(dec *json.Decoder) (Canonicalable, error) {
 	t, err := dec.Token()
 	if err == io.EOF {
-		return nil, nil
+		// the closing delimiter always comes first, so running out of
+		// input means the document is empty or incomplete
+		return nil, io.ErrUnexpectedEOF
 	}
 	if err != nil {
 		return nil, err
